@@ -41,6 +41,10 @@ CHECKS.update({
     'C14': dict(
         text='Every rewriting function is called on the typed families, on API-built multi-argument function calls and on enumerated properties; T_Rewrite accepts an exception only where the statement allows it (simplify: identically-zero divisor / undefined constant found by HplEval; split_and: literal False and never true; replacements on predicates: TypeError iff two references of disjoint types coincide) and checks the documented result kind.',
         note='Bounded families; one recorded finding (known_findings.json).', technique='trace validation of outcome classes and result kinds (T_Rewrite) over TLC-enumerated inputs', design='5/C14'),
+    'C16': dict(
+        text='The session machine HplSession.tla is explored by TLC to enumerate every API call schedule (all of length <= 2 over 25 calls x 6 argument selectors, length 3 over the mutating calls); each schedule is replayed on freshly parsed type-open seed ASTs and after every call the deep snapshot (structure, stored types, metadata, object ids, hashes) of every handle allocated so far is recorded; the trace spec T_C16 keeps the heap as its state and checks at every step that no earlier snapshot changed, plus the but() post-conditions (same object when nothing changes; equal to a fresh construction; metadata copied, not shared; ==/hash ignore metadata).',
+        note='Bounded schedule length and a fixed set of 16 seed ASTs chosen for type openness; fresh construction is built with the same constructor arguments.',
+        technique='TLC enumeration of call schedules (MC_Sched) replayed on real objects + stateful trace validation (T_C16)', design='5/C16'),
 })
 
 REASON_PENDING = 'check not built yet in this session (planned in DESIGN.md section 5); not claimed until its machinery exists'
